@@ -49,7 +49,7 @@ def list_of_float(arg, length):
 def list_or_int(arg, min=1, max=math.inf):
     """Used by argparse when the argument should be a list of ints or a int."""
     values = arg.split(",")
-    if len(values) == 1 and isinstance(arg, int):
+    if len(values) == 1 and arg.strip().lstrip('+-').isdigit():
         return int(arg)
     elif min <= len(values) <= max:
         try:
